@@ -66,6 +66,16 @@ type evGen struct {
 	avoid   func(cell, exit string) bool
 	hist    map[string]int
 	globals []gvar
+	makers  []gfun // defuns returning a closure over their parameter: (name c) yields a function of `arity` arguments
+	self    *gself // inside the body of a recursive defun: the function may call itself with a smaller counter
+}
+
+type gself struct {
+	name  string
+	n     string   // the counter parameter (never assigned, never shadowed)
+	rest  []string // the other parameters
+	sites int      // self calls generated so far
+	iter  int      // g.iter of the function body: no self call inside a loop
 }
 
 func (g *evGen) count(k string) { g.hist[k]++ }
@@ -269,7 +279,14 @@ func (g *evGen) stmt(d int) string {
 	if d <= 0 || g.size <= 0 {
 		return "(vtr " + g.tr() + ")"
 	}
-	switch g.r.Intn(12) {
+	switch g.r.Intn(13) {
+	case 12:
+		// the rest lists of all calls mapcar makes, collected and traced as a whole: each call has its own list
+		g.count("rest-collect")
+		rn := g.fresh("r")
+		return fmt.Sprintf("(vtr (mapcar (lambda (&rest %s) %s) %s %s))", rn, rn,
+			g.sub("call.arg", func() string { return g.sub("mapcar.list", func() string { return g.expr(tL, d-1) }) }),
+			g.sub("call.arg", func() string { return g.sub("mapcar.list", func() string { return g.expr(tL, d-1) }) }))
 	case 0, 1, 2:
 		return "(vtr " + g.tr() + ")"
 	case 3, 4:
@@ -643,6 +660,20 @@ func (g *evGen) fnExpr(arity, d int, immediate bool, consumer string) string {
 		}
 		return "(function " + nm + ")"
 	}
+	{
+		// a closure made by a maker function: it outlives the call that created its binding
+		var cand []gfun
+		for _, m := range g.makers {
+			if m.arity == arity {
+				cand = append(cand, m)
+			}
+		}
+		if len(cand) > 0 && g.r.Chance(50) {
+			g.count("maker-call")
+			m := cand[g.r.Intn(len(cand))]
+			return fmt.Sprintf("(%s %s)", m.name, g.sub("ucall.arg", func() string { return g.expr(tI, d-1) }))
+		}
+	}
 	g.count("lambda")
 	ps := make([]string, arity)
 	nv := make([]gvar, arity)
@@ -651,8 +682,26 @@ func (g *evGen) fnExpr(arity, d int, immediate bool, consumer string) string {
 		ps[i] = g.freshIn("p", usedP)
 		nv[i] = gvar{name: ps[i], typ: tI}
 	}
+	plist := strings.Join(ps, " ")
+	if g.r.Chance(25) {
+		// (p… &rest r): the last k parameters are collected in a list made for the call
+		g.count("lambda-rest")
+		k := g.r.Intn(arity + 1)
+		rn := g.fresh("r")
+		plist = strings.TrimSpace(strings.Join(ps[:k], " ") + " &rest " + rn)
+		nv = append(nv[:k:k], gvar{name: rn, typ: tL})
+	}
 	savedT, savedIn, savedHeld := g.targets, g.inFn, g.held
-	if !immediate {
+	escaping := g.r.Chance(30)
+	var cname, cinit string
+	if escaping {
+		// (let ((c init)) (lambda …)): the closure is called after the let that holds its variable has returned
+		g.count("lambda-escaping-let")
+		cname = g.fresh("c")
+		cinit = g.sub("let.init", func() string { return g.expr(tI, d-1) })
+		nv = append(nv, gvar{name: cname, typ: tI})
+	}
+	if !immediate || escaping {
 		g.targets = nil
 	}
 	g.inFn = true
@@ -660,9 +709,46 @@ func (g *evGen) fnExpr(arity, d int, immediate bool, consumer string) string {
 	if consumer == "mapcar" {
 		cell = "mapcar-lambda"
 	}
-	body := g.withVars(nv, func() string { return g.seq(cell, tI, d, 2) })
+	body := g.withVars(nv, func() string {
+		if escaping && g.r.Chance(60) {
+			// make sure the captured variable is assigned, from a nested scope or directly
+			return g.escapedUpdate(cname, d) + " " + g.seq(cell, tI, d, 1)
+		}
+		return g.seq(cell, tI, d, 2)
+	})
 	g.targets, g.inFn, g.held = savedT, savedIn, savedHeld
-	return fmt.Sprintf("(lambda (%s) %s)", strings.Join(ps, " "), body)
+	if escaping {
+		return fmt.Sprintf("(let ((%s %s)) (lambda (%s) %s))", cname, cinit, plist, body)
+	}
+	return fmt.Sprintf("(lambda (%s) %s)", plist, body)
+}
+
+// escapedUpdate: a statement assigning the captured variable c from one of the nested scopes a closure body can
+// contain (the assignment has to find the binding the closure was created in, wherever it is evaluated)
+func (g *evGen) escapedUpdate(c string, d int) string {
+	g.count("setq")
+	val := fmt.Sprintf("(+ %s %s)", c, g.sub("call.arg", func() string { return g.wrap(g.leaf(tI)) }))
+	set := fmt.Sprintf("(setq %s %s)", c, val)
+	q := g.fresh("q")
+	switch g.r.Intn(9) {
+	case 0:
+		return set
+	case 1:
+		return fmt.Sprintf("(let ((%s %s)) %s)", q, g.lit(), set)
+	case 2:
+		return fmt.Sprintf("(let* ((%s %s)) (setq %s (+ %s %s)))", q, g.lit(), c, c, q)
+	case 3:
+		return fmt.Sprintf("(dotimes (%s 2) %s)", q, set)
+	case 4:
+		return fmt.Sprintf("(dolist (%s (quote (1 2))) (setq %s (+ %s %s)))", q, c, c, q)
+	case 5:
+		return fmt.Sprintf("(do ((%s 0 (+ %s 1))) ((>= %s 2)) %s)", q, q, q, set)
+	case 6:
+		return fmt.Sprintf("(multiple-value-bind (%s) (values %s) (setq %s (+ %s %s)))", q, g.lit(), c, c, q)
+	case 7:
+		return fmt.Sprintf("(when (< %s 1000) (let ((%s 1)) (setq %s (+ %s %s))))", c, q, c, c, q)
+	}
+	return fmt.Sprintf("(funcall (lambda (%s) (setq %s (+ %s %s))) %s)", q, c, c, q, g.lit())
 }
 
 // callFn: funcall / apply of a function expression
@@ -686,6 +772,9 @@ func (g *evGen) callFn(d int) string {
 }
 
 func (g *evGen) userCall(d int) string {
+	if sf := g.self; sf != nil && sf.sites < 2 && g.iter == sf.iter && g.r.Chance(60) {
+		return g.selfCall(d)
+	}
 	if len(g.funs) == 0 {
 		return g.callFn(d)
 	}
@@ -696,6 +785,81 @@ func (g *evGen) userCall(d int) string {
 		args[i] = g.sub("ucall.arg", func() string { return g.expr(tI, d-1) })
 	}
 	return fmt.Sprintf("(%s %s)", f.name, strings.Join(args, " "))
+}
+
+// selfCall: the enclosing recursive function calls itself with a smaller counter
+func (g *evGen) selfCall(d int) string {
+	sf := g.self
+	sf.sites++
+	g.count("self-call")
+	args := []string{fmt.Sprintf("(- %s 1)", sf.n)}
+	for range sf.rest {
+		args = append(args, g.sub("ucall.arg", func() string { return g.expr(tI, d-1) }))
+	}
+	return fmt.Sprintf("(%s %s)", sf.name, strings.Join(args, " "))
+}
+
+// cleanupRecursion: the recursive function leaves an unwind-protect by an exit whose value depends on the
+// activation, and calls itself from the cleanup forms — the form that produced the exit is evaluated again while
+// the exit is on its way to its target.
+func (g *evGen) cleanupRecursion(d int) string {
+	sf := g.self
+	g.count("cleanup-recursion")
+	inner := func() string {
+		var cand []gtarget
+		for _, tg := range g.targets {
+			if tg.ok && (tg.kind == "ret-from" || tg.kind == "ret-nil") && !g.avoid("unwind-protect.protected", tg.kind) {
+				cand = append(cand, tg)
+			}
+		}
+		value := fmt.Sprintf("(vtr (+ %s %s))", sf.n, g.lit())
+		if g.r.Chance(30) {
+			value = fmt.Sprintf("(+ %s %s)", sf.n, g.sub("call.arg", func() string { return g.expr(tI, 1) }))
+		}
+		prot := value // normal completion
+		if len(cand) > 0 && g.r.Chance(85) {
+			tg := cand[g.r.Intn(len(cand))]
+			if tg.kind == "ret-from" {
+				g.count("return-from")
+				prot = fmt.Sprintf("(return-from %s %s)", tg.name, value)
+			} else {
+				g.count("return")
+				prot = fmt.Sprintf("(return %s)", value)
+			}
+		}
+		var cl []string
+		if g.r.Chance(40) {
+			cl = append(cl, "(vtr "+g.tr()+")")
+		}
+		cl = append(cl, g.sub("unwind-protect.cleanup", func() string { return g.selfCall(d) }))
+		if g.r.Chance(40) {
+			cl = append(cl, g.sub("unwind-protect.cleanup", func() string { return g.stmt(1) }))
+		}
+		g.count("unwind-protect")
+		return fmt.Sprintf("(unwind-protect %s %s)", prot, strings.Join(cl, " "))
+	}
+	switch g.r.Intn(5) {
+	case 0:
+		return fmt.Sprintf("(let ((%s (* %s 10))) %s)", g.fresh("v"), sf.n, g.sub("let.last", inner))
+	case 1:
+		b := g.fresh("b")
+		saved := g.targets
+		g.targets = append(append([]gtarget{}, saved...), gtarget{name: b, ok: true, kind: "ret-from"})
+		in := g.sub("block.body", inner)
+		g.targets = saved
+		return fmt.Sprintf("(block %s %s (vtr %s))", b, in, g.tr())
+	case 2:
+		saved := g.pushLoopTargets()
+		in := g.sub("dolist.body", inner)
+		g.targets = saved
+		return fmt.Sprintf("(dolist (%s (quote (1 2)) 0) %s)", g.fresh("x"), in)
+	case 3:
+		saved := g.pushLoopTargets()
+		in := g.sub("dotimes.body", inner)
+		g.targets = saved
+		return fmt.Sprintf("(dotimes (%s 2 0) %s)", g.fresh("i"), in)
+	}
+	return inner()
 }
 
 // loopExpr: dolist / dotimes / do / do*. As a statement the value is ignored.
@@ -837,7 +1001,27 @@ func (g *evGen) mvExpr(t, d int) string {
 		}
 	}
 	var vform string
-	if g.r.Chance(20) {
+	if g.ctl && g.r.Chance(25) && !g.avoid("mv.return-from", "ret-from") {
+		// the values are carried out of a block by return-from
+		g.count("return-from-values")
+		b := g.fresh("b")
+		vform = g.sub("mvb.values", func() string {
+			saved := g.targets
+			g.targets = append(append([]gtarget{}, saved...), gtarget{name: b, ok: true, kind: "ret-from"})
+			pre := g.sub("block.body", func() string { return g.stmt(d - 1) })
+			g.targets = saved
+			wrapL, wrapR := "", ""
+			switch g.r.Intn(4) {
+			case 0:
+				wrapL, wrapR = "(let (("+g.fresh("v")+" 1)) ", ")"
+			case 1:
+				wrapL, wrapR = "(unwind-protect ", " (vtr "+g.tr()+"))"
+			case 2:
+				wrapL, wrapR = "(when t ", ")"
+			}
+			return fmt.Sprintf("(block %s %s %s(return-from %s (values %s))%s (vtr %s))", b, pre, wrapL, b, strings.Join(vs, " "), wrapR, g.tr())
+		})
+	} else if g.r.Chance(20) {
 		vform = g.sub("mvb.values", func() string { return g.expr(tI, d-1) }) // a single value
 		for i := 1; i < len(nv); i++ {
 			nv[i].typ = tL
@@ -864,7 +1048,7 @@ func (g *evGen) blockExpr(t, d int) string {
 
 // exitOrCtl: an exit to a reachable target, an error, or a control form around a body
 func (g *evGen) exitOrCtl(t, d int) string {
-	return g.exitOrCtlKind(t, d, g.r.Intn(10))
+	return g.exitOrCtlKind(t, d, g.r.Intn(12))
 }
 
 func (g *evGen) exitOrCtlKind(t, d, kind int) string {
@@ -972,6 +1156,42 @@ func (g *evGen) exitOrCtlKind(t, d, kind int) string {
 			}
 		}
 		return g.blockExpr(t, d)
+	case 10:
+		// (recover sym on-recover form…): an error in the forms is replaced by the value of the on-recover form
+		g.count("recover")
+		rv := g.fresh("r")
+		on := g.sub("recover.on-recover", func() string { return g.expr(t, d-1) })
+		var parts []string
+		n := g.r.Intn(3)
+		for i := 0; i < n; i++ {
+			parts = append(parts, g.sub("recover.body", func() string {
+				if g.r.Chance(35) {
+					return g.exitOrCtlKind(tI, d-1, 3) // an error
+				}
+				return g.stmt(d - 1)
+			}))
+		}
+		parts = append(parts, g.sub("recover.last", func() string { return g.expr(t, d-1) }))
+		return fmt.Sprintf("(recover %s %s %s)", rv, on, strings.Join(parts, " "))
+	case 11:
+		// with-open-file: the stream is remembered and probed by a cleanup form that runs on every path
+		g.count("with-open-file")
+		h, sv := g.fresh("h"), g.fresh("s")
+		restore := g.enter("let.last")
+		restore2 := g.enter("unwind-protect.protected")
+		var parts []string
+		if g.r.Chance(50) {
+			parts = append(parts, fmt.Sprintf("(vtr (vopen %s))", sv))
+		}
+		parts = append(parts, g.seq("with-open-file", t, d, 2))
+		restore2()
+		restore()
+		opts := ""
+		if g.r.Chance(30) {
+			opts = " :direction :input"
+		}
+		return fmt.Sprintf("(let ((%s nil)) (unwind-protect (with-open-file (%s \"/dev/null\"%s) (setq %s %s) %s) (vtr (vopen %s))))",
+			h, sv, opts, h, sv, strings.Join(parts, " "), h)
 	}
 	return g.blockExpr(t, d)
 }
@@ -1035,6 +1255,12 @@ func (g *evGen) defun(recursive bool) string {
 		ps[i] = g.freshIn("p", usedP)
 		nv[i] = gvar{name: ps[i], typ: tI}
 	}
+	restDefun := !recursive && g.r.Chance(20)
+	if restDefun {
+		// (defun f (p… &rest r) …): the last argument of every call arrives as a one-element list
+		g.count("defun-rest")
+		nv[arity-1].typ = tL
+	}
 	savedT, savedIn, savedIter, savedVars := g.targets, g.inFn, g.iter, g.vars
 	g.targets, g.inFn, g.iter = nil, true, 4
 	g.vars = nil
@@ -1050,21 +1276,61 @@ func (g *evGen) defun(recursive bool) string {
 		g.count("defun-recursive")
 		nv[0].ro = true
 		savedShadow := g.shadow
-		body = g.withVars(nv, func() string {
-			g.shadow = true // no lambda inside a recursive function (closure finding)
-			var base, stepv string
-			g.sub("block.last", func() string {
-				base = g.sub("if.then", func() string { return g.expr(tI, d-2) })
-				stepv = g.sub("if.else", func() string { return g.sub("call.arg", func() string { return g.expr(tI, d-2) }) })
-				return ""
+		general := g.r.Chance(50)
+		if !general {
+			body = g.withVars(nv, func() string {
+				g.shadow = true // no lambda inside a recursive function (closure finding)
+				var base, stepv string
+				g.sub("block.last", func() string {
+					base = g.sub("if.then", func() string { return g.expr(tI, d-2) })
+					stepv = g.sub("if.else", func() string { return g.sub("call.arg", func() string { return g.expr(tI, d-2) }) })
+					return ""
+				})
+				g.shadow = savedShadow
+				args := []string{fmt.Sprintf("(- %s 1)", ps[0])}
+				for _, p := range ps[1:] {
+					args = append(args, g.wrap(fmt.Sprintf("(+ %s 1)", p)))
+				}
+				call := fmt.Sprintf("(%s %s)", name, strings.Join(args, " "))
+				if g.r.Chance(50) {
+					// the recursive call first: what the outer activation bound is read after the inner ones have run
+					return fmt.Sprintf("(if (< %s 1) %s (+ %s %s))", ps[0], base, call, stepv)
+				}
+				return fmt.Sprintf("(if (< %s 1) %s (+ %s %s))", ps[0], base, stepv, call)
 			})
-			g.shadow = savedShadow
-			args := []string{fmt.Sprintf("(- %s 1)", ps[0])}
-			for _, p := range ps[1:] {
-				args = append(args, g.wrap(fmt.Sprintf("(+ %s 1)", p)))
-			}
-			return fmt.Sprintf("(if (< %s 1) %s (+ %s (%s %s)))", ps[0], base, stepv, name, strings.Join(args, " "))
-		})
+		} else {
+			// general recursion: the function calls itself from any position of a generated body (argument, binding
+			// init, loop-free body, cleanup form of unwind-protect while an exit is on its way, …)
+			g.count("defun-recursive-general")
+			body = g.withVars(nv, func() string {
+				g.shadow = true
+				sf := &gself{name: name, n: ps[0], rest: ps[1:], iter: g.iter}
+				g.self = sf
+				var base, rec string
+				g.sub("block.last", func() string {
+					base = g.sub("if.then", func() string { g.self = nil; e := g.expr(tI, 1); g.self = sf; return e })
+					if g.ctl && g.r.Chance(40) {
+						rec = g.sub("if.else", func() string { return g.cleanupRecursion(d) })
+					} else {
+						rec = g.sub("if.else", func() string { return g.expr(tI, d+1) })
+					}
+					if sf.sites == 0 {
+						rec = g.sub("if.else", func() string {
+							a := g.sub("call.arg", func() string { return g.selfCall(d) })
+							b := g.sub("call.arg", func() string { return g.expr(tI, d-1) })
+							if g.r.Bool() {
+								a, b = b, a
+							}
+							return fmt.Sprintf("(+ %s %s)", a, b)
+						})
+					}
+					return ""
+				})
+				g.self = nil
+				g.shadow = savedShadow
+				return fmt.Sprintf("(if (< %s 1) %s %s)", ps[0], base, rec)
+			})
+		}
 	} else {
 		g.count("defun")
 		// the body is the body of the function's implicit block
@@ -1075,6 +1341,9 @@ func (g *evGen) defun(recursive bool) string {
 		g.funs = append(g.funs, gfun{name: name, arity: arity})
 	}
 	text := fmt.Sprintf("(defun %s (%s) %s)", name, strings.Join(ps, " "), body)
+	if restDefun {
+		text = fmt.Sprintf("(defun %s (%s) %s)", name, strings.TrimSpace(strings.Join(ps[:arity-1], " ")+" &rest "+ps[arity-1]), body)
+	}
 	if recursive {
 		// the recursive function is only called through a wrapper with a small literal count
 		w := g.fresh("f")
@@ -1093,6 +1362,33 @@ func (g *evGen) defun(recursive bool) string {
 	return text
 }
 
+// maker: (defun mk (c) (lambda (p…) body)) — every call creates a fresh binding of c that only the returned
+// closure can reach; the closure is called after mk has returned
+func (g *evGen) maker() string {
+	name := g.fresh("f")
+	c := g.fresh("c")
+	arity := 1 + g.r.Intn(2)
+	ps := make([]string, arity)
+	nv := []gvar{{name: c, typ: tI}}
+	for i := range ps {
+		ps[i] = g.fresh("p")
+		nv = append(nv, gvar{name: ps[i], typ: tI})
+	}
+	savedT, savedIn, savedIter, savedVars, savedHeld := g.targets, g.inFn, g.iter, g.vars, g.held
+	g.targets, g.inFn, g.iter, g.vars = nil, true, 4, nil
+	g.count("defun-maker")
+	d := 2 + g.r.Intn(2)
+	body := g.withVars(nv, func() string {
+		if g.r.Chance(70) {
+			return g.escapedUpdate(c, d) + " " + g.seq("lambda", tI, d, 1)
+		}
+		return g.seq("lambda", tI, d, 2)
+	})
+	g.targets, g.inFn, g.iter, g.vars, g.held = savedT, savedIn, savedIter, savedVars, savedHeld
+	g.makers = append(g.makers, gfun{name: name, arity: arity})
+	return fmt.Sprintf("(defun %s (%s) (lambda (%s) %s))", name, c, strings.Join(ps, " "), body)
+}
+
 // evGenProgram generates one composite program.
 func evGenProgram(r *lib.Rng, caseID int, ctl bool, avoid func(cell, exit string) bool, hist map[string]int) string {
 	g := &evGen{r: r, prefix: fmt.Sprintf("k%d", caseID), ctl: ctl, avoid: avoid, hist: hist, iter: 1}
@@ -1108,7 +1404,21 @@ func evGenProgram(r *lib.Rng, caseID int, ctl bool, avoid func(cell, exit string
 		}
 	}
 	for i := r.Intn(3); i > 0; i-- {
-		parts = append(parts, g.defun(r.Chance(35)))
+		rec := r.Chance(35)
+		parts = append(parts, g.defun(rec))
+		if rec && r.Chance(50) {
+			// the function has been called completely once before the program proper uses it (slip compiles a body
+			// lazily and shares the compiled forms between activations afterwards)
+			w := g.funs[len(g.funs)-1]
+			args := make([]string, w.arity)
+			for k := range args {
+				args[k] = g.lit()
+			}
+			parts = append(parts, fmt.Sprintf("(vtr (%s %s))", w.name, strings.Join(args, " ")))
+		}
+	}
+	if !g.shadow && r.Chance(35) {
+		parts = append(parts, g.maker())
 	}
 	d := 2 + r.Intn(4) // generator nesting depth 2..5 (plus the defun level)
 	t := []int{tI, tI, tL, tB}[r.Intn(4)]
